@@ -35,6 +35,11 @@ func c18Gen(r *rand.Rand, tier string) []spec.Case {
 			// directory, which is go-plugin's to remove (with a Cmd launch it would be the user's own leak)
 			c.Steps = append(c.Steps, "p-accept-open")
 		}
+		if q := (i / 3) % 4; c.Proto != "netrpc" && (q == 0 || q == 1 && i%2 == 0 || q == 2 && i%2 == 1) {
+			// plugin code that announces brokered servers from a background worker, still doing so while the
+			// plugin shuts down: whatever those calls created must be gone when the plugin has exited
+			c.Steps = append(c.Steps, "p-accept-storm")
+		}
 		c.KeepConns = i%2 == 1
 		c.KillRacesAccepts = c.Proto == "grpc" && i%3 == 1
 		out = append(out, spec.Case{Kind: c.Proto, P: spec.MustJSON(c)})
@@ -72,7 +77,7 @@ func c18Judge(c spec.Case, evs []spec.Event, d *Death) CaseResult {
 		kinds[s] = true
 	}
 	var ks []string
-	for _, k := range []string{"dispense", "call", "h2p", "p2h", "stdio", "p-accept-open"} {
+	for _, k := range []string{"dispense", "call", "h2p", "p2h", "stdio", "p-accept-open", "p-accept-storm"} {
 		if kinds[k] {
 			ks = append(ks, k)
 		}
@@ -136,7 +141,7 @@ func init() {
 				r.Inconcl = append(r.Inconcl, fmt.Sprintf("too few graceful shutdowns observed: %v", r.Counters))
 			}
 		},
-		Rule:        "cases = seeded histories (0-5 steps) of dispense / calls / brokered accept+dial host->plugin and plugin->host / stdio writes / a brokered listener the plugin accepts and keeps open (custom-runner launches), followed by Kill, x protocol (net/rpc, gRPC, gRPC+mux) x TLS (none, AutoMTLS) x launch (Cmd, custom runner with socket dir) x plugin cleanup time; real subprocesses with private sandboxes on both sides, plus in-process test-mode servers (every protocol) cancelled after no host / one reattached host used them; only graceful exits (cleanup marker present) are judged. Monitors: listing of the plugin's sandbox and the host-side temp dir, and a goroutine dump of the host process filtered on go-plugin frames, compared with the count before the case and polled up to 10 s (one case at a time per host process). Class = protocol|TLS|launch|step kinds",
+		Rule:        "cases = seeded histories (0-5 steps) of dispense / calls / brokered accept+dial host->plugin and plugin->host / stdio writes / a brokered listener the plugin accepts and keeps open (custom-runner launches) / plugin code that announces a brokered server every 5 ms from a background worker until shortly after Serve returned, followed by Kill, x protocol (net/rpc, gRPC, gRPC+mux) x TLS (none, AutoMTLS) x launch (Cmd, custom runner with socket dir) x plugin cleanup time; real subprocesses with private sandboxes on both sides, plus in-process test-mode servers (every protocol) cancelled after no host / one reattached host used them; only graceful exits (cleanup marker present) are judged. Monitors: listing of the plugin's sandbox and the host-side temp dir, and a goroutine dump of the host process filtered on go-plugin frames, compared with the count before the case and polled up to 10 s (one case at a time per host process). Class = protocol|TLS|launch|step kinds",
 		Assumptions: []string{"the harness closes connections it dialled; servers started by AcceptAndServe are go-plugin's to stop", "goroutines started by grpc-go for a ClientConn are not go-plugin's"},
 	})
 }
